@@ -207,31 +207,55 @@ def run(ctx):
     r, I = ctx.run(tn)
     ctx.formula('FORMULA', 'total noise == sqrt(noise_std^2 + bg_noise_std^2)', tn, r.ret,
                 ctx.spec(tn, 'xp.sqrt(self.noise_std**2 + self.bg_noise_std**2)'), node=tn.node, construct='return total')
-    for m in ('add_noise', 'update_noise'):
-        fi = ctx.func(DS + 'BackgroundDataStream.' + m)
-        r, I = ctx.run(fi, no_inline=(DS + 'DataStream.' + m, DS + 'BackgroundDataStream._set_all_bg_noise'))
-        base = [e for e in I.events if e.kind == 'call' and e.data.get('name') == DS + 'DataStream.' + m and not e.pc]
-        push = [e for e in I.events if e.kind == 'call' and e.data.get('name') == DS + 'BackgroundDataStream._set_all_bg_noise'
-                and not e.pc]
-        ok = bool(base) and bool(push) and base[0].seq < push[0].seq
-        ctx.ob('MUSTPASS', f'background {m}: base-class update, then push to every antenna stream, on every path', fi, ok,
-               {'base': [e.text() for e in base], 'push': [e.text() for e in push]}, node=fi.node, construct=f'{m} -> _set_all_bg_noise')
-        if m == 'add_noise' and base:
-            bnd = base[0].data['bound']
-            for p in ('v_mean', 'v_std'):
-                ctx.formula('AGREE', f'background add_noise forwards {p}', fi, bnd.get(p, T.NONE), sym(p), node=base[0].node,
-                            construct=f'DataStream.add_noise({p})')
-    sb = ctx.func(DS + 'BackgroundDataStream._set_all_bg_noise')
-    r, I = ctx.run(sb, expand=False)
-    st = [e for e in I.events if e.kind == 'store' and e.data.get('name') == 'bg_noise_std']
-    ctx.require(st, '_set_all_bg_noise no longer stores bg_noise_std')
-    ok = len(st) == 1 and len(st[0].loops) == 1 and pretty(st[0].loops[0]['iter']) == 'self.antenna_streams' and \
-        st[0].data['base'].single_atom().kind == 'elem'
-    ctx.ob('MUSTPASS', 'every linked antenna stream receives the background deviation', sb, ok,
-           {'store': st[0].text(), 'loop_over': pretty(st[0].loops[0]['iter']) if st[0].loops else None}, node=st[0].node)
-    ctx.formula('FORMULA', 'pushed value == the background stream\'s own noise_std', sb, st[0].data['value'],
-                ctx.spec(sb, 'self.noise_std', I=ctx.interp(expand=False)), node=st[0].node, construct='stream.bg_noise_std value')
+    # Every method a BackgroundDataStream answers to (own or inherited, dispatched on the background class) that assigns
+    # its noise_std must afterwards, on every path that assigns it, push the final value to every linked antenna stream.
+    bci = ctx.prog.cls(DS + 'BackgroundDataStream')
+    dci = ctx.prog.cls(DS + 'DataStream')
+    names = sorted({n for c in bci.mro() for n in c.methods if n != '__init__'})
+    n_writers = 0
+    for name in names:
+        fi = bci.find_method(name)
+        I = ctx.interp(expand=False)
+        r = I.run(fi, self_cls=bci)
+        ctx._account(I)
+        ctx.functions_analysed.add(fi.short)
+        ns = [e for e in I.events if e.kind == 'store' and e.data.get('target') == 'attr' and e.data.get('name') == 'noise_std'
+              and e.data['base'].key == sym('self').key]
+        if not ns:
+            continue
+        n_writers += 1
 
+        def is_push(e):
+            if not (e.kind == 'store' and e.data.get('target') == 'attr' and e.data.get('name') == 'bg_noise_std' and e.loops):
+                return False
+            ba = e.data['base'].single_atom()
+            it = e.loops[-1]['iter']
+            return ba is not None and ba.kind == 'elem' and ba.args[0].key == it.key and \
+                it.key == T.mk_attr(sym('self'), 'antenna_streams').key
+        pushes = [e for e in I.events if is_push(e)]
+        last = ns[-1]
+        after = [e for e in pushes if e.seq > last.seq]
+        kl = {c.key for c in last.pc}
+        ok = bool(after) and all(c.key in kl for c in after[-1].pc)
+        ctx.ob('MUSTPASS', f'background stream .{name}(): after noise_std is assigned, every linked antenna stream receives it '
+               '(on every path that assigns it)', fi, ok,
+               {'noise_std_stores': [e.text() for e in ns], 'pushes': [e.text() for e in pushes]},
+               node=last.node, construct=f'{name}: bg_noise_std push after `{last.text()[:60]}`')
+        if ok:
+            final = r.heap.get((sym('self').key, 'noise_std'))
+            ctx.formula('FORMULA', f'background stream .{name}(): pushed value == the stream\'s own final noise_std', fi,
+                        after[-1].data['value'], final if final is not None else T.NONE, node=after[-1].node,
+                        construct=f'{name}: stream.bg_noise_std value')
+        # the background stream book-keeps its own deviation exactly like a plain stream
+        base_fi = dci.find_method(name)
+        if base_fi is not None:
+            I2 = ctx.interp(expand=False)
+            r2 = I2.run(base_fi, self_cls=dci)
+            ctx.formula('AGREE', f'background stream .{name}(): own noise_std book-keeping == DataStream.{name}', fi,
+                        r.heap.get((sym('self').key, 'noise_std'), T.NONE), r2.heap.get((sym('self').key, 'noise_std'), T.NONE),
+                        node=last.node, construct=f'{name}: self.noise_std at exit')
+    ctx.require(n_writers >= 2, 'fewer than two methods of BackgroundDataStream assign noise_std (add_noise / update_noise expected): '
+                'MUSTPASS vacuity guard')
 
 META = {
     'technique': 'static analysis: symbolic value analysis against reference transcriptions (FORMULA/AGREE incl. attribute '
